@@ -13,6 +13,16 @@ pub fn parse_expr(p: &mut LuaParser) -> ParseResult {
 }
 
 fn parse_sub_expr(p: &mut LuaParser, limit: i32) -> ParseResult {
+    if !p.enter_level() {
+        return Err(ParseFailReason::UnexpectedToken);
+    }
+
+    let result = parse_sub_expr_unchecked(p, limit);
+    p.leave_level();
+    result
+}
+
+fn parse_sub_expr_unchecked(p: &mut LuaParser, limit: i32) -> ParseResult {
     let uop = LuaOpKind::to_unary_operator(p.current_token());
     let mut cm = if uop != UnaryOperator::OpNop {
         let m = p.mark(LuaSyntaxKind::UnaryExpr);
